@@ -318,27 +318,29 @@ PREFERRED = {"Boolean": ["bool"], "U1": ["int"], "U2": ["int"], "U4": ["int"], "
              "String": ["bytes", "str"], "JIS8": ["bytes", "str"], "Binary": ["bytes", "bytearray"], "Array": ["list"], "List": ["dict"]}
 
 
+REF_MATCH = """
+def _match_type(self, value):
+    var_types = self.types
+    if not self.types:
+        var_types = [Boolean, U1, U2, U4, U8, I1, I2, I4, I8, F4, F8, String, Binary]
+    for var_type in var_types:
+        if isinstance(value, tuple(var_type.preferred_types)) and var_type(count=self.count).supports_value(value):
+            return var_type
+    for var_type in var_types:
+        if var_type(count=self.count).supports_value(value):
+            return var_type
+    return None
+"""
+
+
 def check_match_type(ctx):
     repo = ctx.repo
     f = repo.method("Dynamic", "_match_type", inherited=False)
-    ctx.touch(f)
-    cfg = cfg_of(f.node)
-    loops = [n for n in cfg.nodes if n.kind == "iter"]
-    ok = len(loops) == 2 and cfg.path_exists(loops[0], loops[1]) and not cfg.path_exists(loops[1], loops[0])
-    ctx.ob("C03.P3", f.qualname, ok, "two passes over the candidate types, in order" if ok else f"{len(loops)} passes over the candidates (expected preferred pass, then generic pass)", key="two-passes", where=f.where)
-    if ok:
-        t1 = [n for n in cfg.nodes if n.kind == "test" and cfg.path_exists(rules.branch_marker(loops[0], "true"), n, avoid=[loops[0]])]
-        t2 = [n for n in cfg.nodes if n.kind == "test" and cfg.path_exists(rules.branch_marker(loops[1], "true"), n, avoid=[loops[1]])]
-        v1 = loops[0].ast.target.id
-        first = any("isinstance(value, tuple(" in norm(t.ast) and "preferred_types" in norm(t.ast) and "supports_value(value)" in norm(t.ast) for t in t1)
-        second = any("supports_value(value)" in norm(t.ast) and "preferred_types" not in norm(t.ast) for t in t2)
-        ctx.ob("C03.P3", f.qualname, first and second, "the first pass requires the value's Python type to be a preferred type of the candidate, the second pass only support" if (first and second) else
-               "the preferred-type pass does not precede the generic pass: e.g. the text '1337' given to an id item becomes the integer 1337 instead of staying text", key="preferred-first", where=f.where)
-        same_iter = norm(loops[0].ast.iter) == norm(loops[1].ast.iter)
-        ctx.ob("C03.P3", f.qualname, same_iter, "both passes visit the declared types in the declared order" if same_iter else "the two passes iterate different lists", key="same-order", where=f.where)
-        rets = [n for n in cfg.real_nodes() if isinstance(n.ast, ast.Return) and norm(n.ast.value) != "None"]
-        ok2 = len(rets) == 2 and all(norm(r.ast.value) == v1 or norm(r.ast.value) == loops[1].ast.target.id for r in rets)
-        ctx.ob("C03.P3", f.qualname, ok2, "the first matching candidate of each pass is returned" if ok2 else "the passes do not return their first hit", key="first-hit", where=f.where)
+    from . import _codec
+
+    _codec.agree(ctx, "C03.P3", f, REF_MATCH, {
+        "returns": "two passes over the candidate types in order: first a type whose preferred Python types include the value's type and that supports the value, then any type that supports it, else None",
+    }, key_prefix="preferred-first ")
     for cname, want in PREFERRED.items():
         cls = repo.cls(cname)
         _, expr = cls.find_const_expr("preferred_types")
